@@ -547,6 +547,16 @@ func init() {
 				e := taggedChallenge(rx, pk, m)
 				b.sig = append(append([]byte{}, rx...), scalarBytes(e.Mul(dd))...)
 			})
+			// R at infinity AND r = 0: the identity's coordinates read as (0, 0), which passes an "even Y, x = r" test
+			mod("infR0", func(b *bipCase) {
+				dd := cloneScalar(d)
+				if !d.ActOnBase().(*curve.Secp256k1Point).HasEvenY() {
+					dd.Negate()
+				}
+				rx := make([]byte, 32)
+				e := taggedChallenge(rx, pk, m)
+				b.sig = append(append([]byte{}, rx...), scalarBytes(e.Mul(dd))...)
+			})
 			// a public-key STRING of 33 bytes (x ‖ extra byte): signature made for exactly that string
 			pk33 := append(append([]byte{}, pk...), byte(c.Intn(256)))
 			mod("pk33", func(b *bipCase) { b.pk = pk33; b.sig = schnorrWith(d, pk33, k, m, true) })
